@@ -336,6 +336,20 @@ fn future_read(mode: u8, code: u32) {
                         }
                     }
                     vassert!(fl().cancel_read == 1 && !fl().cancel_while_registered, "C20: cancel-read once, after leaving the task's set");
+                } else if mode == 4 {
+                    // the host completed the read and the event was DELIVERED to the task, but the read is cancelled before it is polled
+                    // again: the delivered value is the outcome (it must not be lost), and the host is not asked to cancel a finished read
+                    unsafe { host_write_value(77) };
+                    vassert!(unsafe { host::deliver(0, FR, code) });
+                    fl().cancel_answer = CANCELLED; // what a host would wrongly be asked for
+                    match fut.as_mut().cancel() {
+                        Ok(v) => got = Some(v),
+                        Err(reader) => {
+                            vassert!(false, "C20: a delivered value must not be reported as a cancellation (the written value would be yielded zero times)");
+                            core::mem::forget(reader);
+                        }
+                    }
+                    vassert!(fl().cancel_read == 0, "C20: a read whose completion was already delivered is not cancelled at the host");
                 } else {
                     fl().cancel_answer = code;
                 }
@@ -357,6 +371,7 @@ fn future_read(mode: u8, code: u32) {
 }
 crate::verif_host_stubs! { #[cfg_attr(kani, kani::unwind(5))] fn c20_read_immediate() { #[cfg(kani)] future_read(0, COMPLETED); } }
 crate::verif_host_stubs! { #[cfg_attr(kani, kani::unwind(5))] fn c20_read_delivered() { #[cfg(kani)] future_read(1, COMPLETED); } }
+crate::verif_host_stubs! { #[cfg_attr(kani, kani::unwind(5))] fn c20_read_delivered_then_cancelled() { #[cfg(kani)] future_read(4, COMPLETED); } }
 crate::verif_host_stubs! { #[cfg_attr(kani, kani::unwind(5))] fn c20_read_cancel_completed() { #[cfg(kani)] future_read(2, COMPLETED); } }
 crate::verif_host_stubs! { #[cfg_attr(kani, kani::unwind(5))] fn c20_read_cancel_cancelled() { #[cfg(kani)] future_read(2, CANCELLED); } }
 crate::verif_host_stubs! { #[cfg_attr(kani, kani::unwind(5))] fn c20_read_dropped_inflight_cancelled() { #[cfg(kani)] future_read(3, CANCELLED); } }
